@@ -238,13 +238,64 @@ func specNext(cur ConnState, ev fsmEvent) ConnState {
 }
 
 //@ func transition
-//@ requires cur <= SelectedState
 //@ ensures [table]  result0 == specNext(cur, ev)
-//@ ensures [edges]  result0 != cur ==> specEdge(cur, result0) && result1
+//@ ensures [edges]  cur <= SelectedState && result0 != cur ==> specEdge(cur, result0) && result1
 //@ ensures [noop]   !result1 ==> result0 == cur
 //@ ensures [t7]     ev == evT7Timeout && cur == SelectedState ==> result0 == SelectedState && !result1
 //@ ensures [closed] ev == evClose ==> result0 == NotConnectedState && result1
-//@ ensures [range]  result0 <= SelectedState
+//@ ensures [range]  cur <= SelectedState ==> result0 <= SelectedState
+
+// ---- C05: the supervisor's single-event step (the only writer of asynchronous transitions) ----
+//
+// Every read of the shared state word returns an arbitrary value (another goroutine may CommitSelected at any
+// time); the atomic operations and fireTransition / teardown are abstracted operations.
+
+//@ func (*supervisor).emit
+//@ operation
+
+//@ func (*epoch).teardown
+//@ operation
+
+//@ func (*supervisor).fireTransition
+//@ nosafety nil-deref nil-iface
+//@ requires s != nil
+//@ emits hsms.(*supervisor).emit, fn:react
+//@ ensures [once]  zzCalls("hsms.(*supervisor).emit") == 1 && zzCalls("fn:react") == 1
+//@ ensures [args]  zzArg[stateChange]("hsms.(*supervisor).emit", 0).prev == prev && zzArg[stateChange]("hsms.(*supervisor).emit", 0).next == next &&
+//@                 zzArg[ConnState]("fn:react", 0) == prev && zzArg[ConnState]("fn:react", 1) == next
+//@ ensures [order] (next == NotConnectedState) == (zzSeq("hsms.(*supervisor).emit") < zzSeq("fn:react"))
+
+//@ func (*supervisor).step
+//@ nosafety nil-deref nil-iface
+//@ requires s != nil && s.lastReacted <= SelectedState
+//@ modifies s.lastReacted, s.closed
+//@ emits atomic.Load:state, atomic.Store:state, atomic.CompareAndSwap:state, hsms.(*supervisor).fireTransition, hsms.(*epoch).teardown, atomic.Load:closeEpoch, hsms.(*supervisor).emit, fn:react
+//@ ensures [latched]  old(s.closed) ==> zzCalls("atomic.Store:state") == 0 && zzCalls("atomic.CompareAndSwap:state") == 0 &&
+//@                    zzCalls("hsms.(*supervisor).fireTransition") == 0 && zzCalls("hsms.(*epoch).teardown") == 0 && s.lastReacted == old(s.lastReacted) && s.closed
+//@ ensures [oneread]  zzCalls("atomic.Load:state") <= 1 && zzCalls("atomic.Store:state") + zzCalls("atomic.CompareAndSwap:state") <= 1
+//@ ensures [edge]     zzCalls("atomic.Store:state") == 1 && zzRet[uint32]("atomic.Load:state") <= uint32(SelectedState) ==>
+//@                    ConnState(zzArg[uint32]("atomic.Store:state", 0)) == specNext(ConnState(zzRet[uint32]("atomic.Load:state")), ev) &&
+//@                    specEdge(ConnState(zzRet[uint32]("atomic.Load:state")), ConnState(zzArg[uint32]("atomic.Store:state", 0)))
+//@ ensures [casedge]  zzCalls("atomic.CompareAndSwap:state") == 1 ==> ev == evT7Timeout &&
+//@                    zzArg[uint32]("atomic.CompareAndSwap:state", 0) == zzRet[uint32]("atomic.Load:state") &&
+//@                    zzArg[uint32]("atomic.CompareAndSwap:state", 0) == uint32(NotSelectedState) && zzArg[uint32]("atomic.CompareAndSwap:state", 1) == uint32(NotConnectedState)
+//@ ensures [t7nostore] ev == evT7Timeout ==> zzCalls("atomic.Store:state") == 0
+//@ ensures [t7stale]  zzCalls("atomic.CompareAndSwap:state") == 1 && !zzRet[bool]("atomic.CompareAndSwap:state") ==>
+//@                    zzCalls("hsms.(*supervisor).fireTransition") == 0 && s.lastReacted == old(s.lastReacted) && !s.closed
+//@ ensures [t7sel]    ev == evT7Timeout && zzRet[uint32]("atomic.Load:state") == uint32(SelectedState) ==>
+//@                    zzCalls("atomic.CompareAndSwap:state") == 0 && zzCalls("hsms.(*supervisor).fireTransition") == 0
+//@ ensures [lostsel]  !old(s.closed) && ev == evSelectLost && zzRet[uint32]("atomic.Load:state") == uint32(SelectedState) ==>
+//@                    zzCalls("atomic.Store:state") == 0 && zzCalls("hsms.(*supervisor).fireTransition") == 0 && s.lastReacted == old(s.lastReacted)
+//@ ensures [fire]     zzCalls("hsms.(*supervisor).fireTransition") <= 1 && (zzCalls("hsms.(*supervisor).fireTransition") == 1 ==>
+//@                    zzArg[ConnState]("hsms.(*supervisor).fireTransition", 0) == old(s.lastReacted) &&
+//@                    zzArg[ConnState]("hsms.(*supervisor).fireTransition", 1) == s.lastReacted && s.lastReacted != old(s.lastReacted))
+//@ ensures [nofire]   zzCalls("hsms.(*supervisor).fireTransition") == 0 ==> s.lastReacted == old(s.lastReacted)
+//@ ensures [close]    !old(s.closed) && ev == evClose ==> s.closed && (zzRet[*epoch]("atomic.Load:closeEpoch") != nil ==> zzCalls("hsms.(*epoch).teardown") == 1)
+//@ ensures [noclose]  ev != evClose ==> s.closed == old(s.closed) && zzCalls("hsms.(*epoch).teardown") == 0
+//@ cover [t7fires]    ev == evT7Timeout && zzCalls("hsms.(*supervisor).fireTransition") == 1
+//@ cover [t7stale]    zzCalls("atomic.CompareAndSwap:state") == 1 && !zzRet[bool]("atomic.CompareAndSwap:state")
+//@ cover [stores]     zzCalls("atomic.Store:state") == 1
+//@ cover [closes]     ev == evClose && zzCalls("hsms.(*epoch).teardown") == 1
 
 // ---- C03: data message construction, serialization, frame decode ----
 
